@@ -1338,11 +1338,15 @@ namespace jsoncons {
         }
 
         void uninitialized_move_a(std::false_type /* stateful allocator */, 
-            basic_json&& other, const Allocator& alloc) noexcept
+            basic_json&& other, const Allocator& alloc) // copies with alloc, may throw
         {
             if (is_trivial_storage(other.storage_kind()))
             {
                 std::memcpy(static_cast<void*>(this), &other, sizeof(basic_json));
+            }
+            else if (other.get_allocator() == alloc)
+            {
+                uninitialized_move(std::move(other)); // equal allocators, take ownership (does not allocate)
             }
             else
             {
@@ -2335,7 +2339,7 @@ namespace jsoncons {
         }
 
         template <typename U = Allocator>
-        basic_json(basic_json&& other, const Allocator& alloc) noexcept
+        basic_json(basic_json&& other, const Allocator& alloc) noexcept(std::allocator_traits<U>::is_always_equal::value)
         {
             uninitialized_move_a(typename std::allocator_traits<U>::is_always_equal(), std::move(other), alloc);
         }
